@@ -215,22 +215,27 @@ def run(tier):
         c04b = None
     if c04b is not None:
         be = c04b.backend_half(rep, tier)
+    from checks import c04c
+    nested = c04c.nested_half(rep, tier)
     cov = {
-        "states": ip["accepted"] + (be["methods"] if be else 0),
-        "transitions": ip["n"] * 2 + (be["judgements"] if be else 0),
-        "traces_validated_against_impl": ip["accepted"] * 2 + (be["judgements"] if be else 0),
+        "states": ip["accepted"] + (be["methods"] if be else 0) + nested["inprocess_structs"] + nested["generated_structs"],
+        "transitions": ip["n"] * 2 + (be["judgements"] if be else 0) + nested["inprocess_structs"] + nested["dart_judgements"] + nested["js_judgements"],
+        "traces_validated_against_impl": ip["accepted"] * 2 + (be["judgements"] if be else 0) + nested["inprocess_structs"] + nested["dart_judgements"] + nested["js_judgements"],
         "evaluations": ip["n"],
         "distinct_nontrivial": ip["nonempty"],
         "rule": "one case per method signature (lifetimes, declared bound set, self form, parameter forms with lifetime assignment, return form); "
                 "non-trivial = accepted by the gate and the reference model expects at least one borrow edge. Each accepted signature is run "
                 "through the real BorrowingParamVisitor with force_include_slices in {false,true} and compared edge-for-edge with the "
-                "reflexive-transitive outlives closure; the backend half compares the edge arrays emitted by js/dart/kotlin/nanobind.",
+                "reflexive-transitive outlives closure; the backend half compares the edge arrays emitted by js/dart/kotlin/nanobind; the nested-struct half "
+                "judges StructBorrowInfo::compute_for_struct_field, the Dart struct code (text) and the JS struct getters (executed under Node) for every "
+                "instantiation of an inner borrowing struct's slots with the outer struct's lifetimes.",
         "exhaustive": True,
         "distinct_outcomes": ip["distinct_expected_outcomes"],
         "bound": {"tier": tier, "units": ip["units"], "lifetimes": "<=2 all bound sets, 3 chains" if tier == "quick" else "<=3 lifetimes: all 64 bound sets with <=1 parameter, 10 bound families with 2 parameters; 4 lifetimes with 7 bound families",
                   "params": "<=1 (quick) / <=2 (thorough)"},
         "inprocess": {k: v for k, v in ip.items() if k != "samples"},
         "backend_half": be,
+        "nested_struct_half": nested,
         "wall_inprocess_s": round(t1 - t0, 1),
         "samples": ip["samples"] + ((be or {}).get("samples") or []),
     }
